@@ -34,6 +34,8 @@ def jobs(tier):
     out = []
     for P in (16384, 32768, 65536) + (() if q else (131072,)):
         out.append(("hashers.P%d" % P, "job_hashers", dict(P=P, K=(5 if q else 9) if P < 131072 else 4)))
+    for base in (2 ** 20, 2 ** 21):          # around read-buffer sized boundaries far above a piece
+        out.append(("hashers-big.P32768.base%d" % base, "job_hashers", dict(P=32768, K=2, base=base)))
     for shp in cr.scheme_shapes(["flat2", "nested3"], tier):
         for pair in (("2a", "2c"), ("3a", "3c")):
             out.append(("%s.%s.P16384" % ("v2" if pair[0] == "2a" else "hybrid", shp), "job_pair",
@@ -63,9 +65,9 @@ def jobs(tier):
     return out
 
 
-def job_hashers(E, P, K, _mutants=None):
+def job_hashers(E, P, K, base=0, _mutants=None):
     fs = AFS()
-    s = E.int("s0", 1, K * P)
+    s = E.int("s0", base + 1, base + K * P)
     path = fs.add("/data/f", ("f", 0), s)
     w = World(fs, mutants=_mutants)
     res = {}
